@@ -9,9 +9,10 @@ import (
 func VerifC20_Generate() {
 	ls := []string{"1s:2s,2s:4s", "2s:6s"}
 	if vrt.Tier() == 1 {
-		ls = append(ls, "1s:3s,3s:9s", "1s:4s,2s:8s", "1s:2s,2s:4s,4s:8s")
+		ls = append(ls, "1s:3s,3s:9s")
 	}
-	txt := ls[vrt.Choose("layout", len(ls))]
+	li := vrt.Choose("layout", len(ls))
+	txt := ls[li]
 	list := mustList(txt)
 	m := wt.AggregationMethod(1 + vrt.Choose("method", 2)) // average or sum
 	h, _ := wt.NewHeader(m, 0.5, list)
@@ -20,7 +21,11 @@ func VerifC20_Generate() {
 	vrtCmdAssumeClock(h, now)
 	vrt.SetClock(uint32(now))
 	vrt.ClockDrift(3) // later readings of the wall clock may be up to 3 s later each
-	randMax := []int{0, 1, 3}[vrt.Choose("randMax", 3)]
+	rms := []int{0, 1, 3}
+	if li >= 2 {
+		rms = []int{0, 1} // larger rings: fewer draw values (every draw is case-split)
+	}
+	randMax := rms[vrt.Choose("randMax", len(rms))]
 	fill := vrt.Choose("fill", 2) == 1
 	dest := vrt.NoFile("gen/new.wsp")
 	vrt.Reach("pre")
